@@ -10,6 +10,8 @@ import (
 	"seehuhn.de/go/postscript/funit"
 	"seehuhn.de/go/sfnt"
 	"seehuhn.de/go/sfnt/glyph"
+	"seehuhn.de/go/sfnt/opentype/classdef"
+	"seehuhn.de/go/sfnt/opentype/gdef"
 	"seehuhn.de/go/sfnt/opentype/gtab"
 
 	"verif/harness/internal/gen/fontgen"
@@ -170,7 +172,7 @@ func sameSeq(a, b []glyph.Info) bool {
 }
 
 // c15kernTable assembles a kern table (version 0) and returns the reference values.
-func c15kernTable(k *mon.Case, n int) ([]byte, map[glyph.Pair]int) {
+func c15kernTable(k *mon.Case, n int, huge bool) ([]byte, map[glyph.Pair]int) {
 	r := k.Rng
 	ref := map[glyph.Pair]int{}
 	nsub := 1 + r.IntN(4)
@@ -184,6 +186,12 @@ func c15kernTable(k *mon.Case, n int) ([]byte, map[glyph.Pair]int) {
 			np = 0
 		case 1:
 			np = 200 + r.IntN(2800)
+		}
+		if huge && s == nsub-1 {
+			// more pairs than the 16-bit subtable length can describe (> 10920);
+			// real fonts and the library's own encoder write the length modulo 65536
+			np = 10900 + r.IntN(3000)
+			k.Class("kern-subtable:>10920-pairs")
 		}
 		flags := byte(1) // horizontal
 		kind := "accumulate"
@@ -212,7 +220,7 @@ func c15kernTable(k *mon.Case, n int) ([]byte, map[glyph.Pair]int) {
 		pairs := map[glyph.Pair]int16{}
 		for len(pairs) < np && len(pairs) < n*n {
 			p := glyph.Pair{Left: glyph.ID(r.IntN(n)), Right: glyph.ID(r.IntN(n))}
-			if s > 0 && r.IntN(2) == 0 && len(ref) > 0 {
+			if s > 0 && r.IntN(2) == 0 && len(ref) > 0 && !(huge && s == nsub-1) {
 				for q := range ref { // hit an existing pair
 					p = q
 					break
@@ -231,10 +239,7 @@ func c15kernTable(k *mon.Case, n int) ([]byte, map[glyph.Pair]int) {
 			return keys[i].Right < keys[j].Right
 		})
 		np = len(keys)
-		length := 14 + 6*np
-		if length > 0xffff {
-			length = 0xffff
-		}
+		length := (14 + 6*np) & 0xffff
 		out = binary.BigEndian.AppendUint16(out, 0)
 		out = binary.BigEndian.AppendUint16(out, uint16(length))
 		out = append(out, 0, flags)
@@ -384,6 +389,20 @@ func runC15(c *mon.Ctx) {
 				}
 			}
 		}
+		// some fonts classify glyphs as marks: marks do not get an advance width
+		if r.IntN(3) == 0 {
+			gc := classdef.Table{}
+			for g := 1; g < info.NGlyphs; g++ {
+				switch r.IntN(4) {
+				case 0:
+					gc[glyph.ID(g)] = gdef.GlyphClassMark
+				case 1:
+					gc[glyph.ID(g)] = gdef.GlyphClassBase
+				}
+			}
+			f.Gdef = &gdef.Table{GlyphClass: gc}
+			k.Class("layout:gdef-marks")
+		}
 		var gsubOn, gposOn map[string]bool
 		switch r.IntN(4) {
 		case 0:
@@ -441,6 +460,9 @@ func runC15(c *mon.Ctx) {
 			gsubEffect = before != seqString(seq)
 		}
 		for i := range seq {
+			if f.Gdef != nil && f.Gdef.GlyphClass[seq[i].GID] == gdef.GlyphClassMark {
+				continue // "gives each non-mark glyph its advance width"
+			}
 			seq[i].Advance = funit.Int16(f.GlyphWidth(seq[i].GID))
 		}
 		if f.Gpos != nil {
@@ -468,12 +490,44 @@ func runC15(c *mon.Ctx) {
 				return
 			}
 			for i := range got {
-				if got[i].GID != base[i].GID || string(got[i].Text) != string(base[i].Text) || float64(got[i].Advance) != f.GlyphWidth(base[i].GID) || got[i].XOffset != 0 || got[i].YOffset != 0 {
+				wantAdv := f.GlyphWidth(base[i].GID)
+				if f.Gdef != nil && f.Gdef.GlyphClass[base[i].GID] == gdef.GlyphClassMark {
+					wantAdv = 0
+				}
+				if got[i].GID != base[i].GID || string(got[i].Text) != string(base[i].Text) || float64(got[i].Advance) != wantAdv || got[i].XOffset != 0 || got[i].YOffset != 0 {
 					k.Fail("mismatch", "layout:plain-glyph", "no rule applies but glyph %d is %s (%s)", i, seqString(got[i:i+1]), desc)
 					return
 				}
 			}
 		}
+		// history: further calls on the same layouter give what a fresh one gives
+		for h := 0; h < 4; h++ {
+			var t []rune
+			for n := r.IntN(10); n > 0; n-- {
+				t = append(t, mapped[r.IntN(len(mapped))])
+			}
+			if h == 3 {
+				t = s
+			}
+			var used, fresh []glyph.Info
+			if k.Guard("Layout (re-used layouter)", func() { used = copySeq(lay.Layout(string(t))) }) {
+				return
+			}
+			if k.Guard("Layout (fresh layouter)", func() {
+				l2, err := f.NewLayouter(lang, gsubOn, gposOn)
+				if err == nil {
+					fresh = copySeq(l2.Layout(string(t)))
+				}
+			}) {
+				return
+			}
+			k.Eval()
+			if !sameSeq(used, fresh) {
+				k.Fail("mismatch", "layout:history-dependent", "call %d on a re-used Layouter differs from a fresh Layouter for %q:\n re-used %s\n fresh   %s (%s)", h+2, string(t), seqString(used), seqString(fresh), desc)
+				return
+			}
+		}
+		k.Class("layout:history-compared")
 		if k.Index < 2 {
 			k.Sample(desc + " -> " + seqString(got))
 		}
@@ -482,7 +536,12 @@ func runC15(c *mon.Ctx) {
 	// ---- legacy kern tables ----
 	c.Stratum("kern", c.N(400, 30000), func(k *mon.Case) {
 		r := k.Rng
-		f, info := fontgen.Font(r, fontgen.Opts{Kind: []string{"glyf", "cff"}[k.Index%2], MinGlyphs: 3, MaxGlyphs: 40, Plain: true, CMap: "4", NoComposite: true})
+		huge := k.Index%8 == 3
+		ko := fontgen.Opts{Kind: []string{"glyf", "cff"}[k.Index%2], MinGlyphs: 3, MaxGlyphs: 40, Plain: true, CMap: "4", NoComposite: true}
+		if huge {
+			ko.MinGlyphs, ko.MaxGlyphs = 130, 160
+		}
+		f, info := fontgen.Font(r, ko)
 		if f.CreationTime.IsZero() && f.ModificationTime.IsZero() {
 			f.ModificationTime = f.ModificationTime.AddDate(2001, 0, 0)
 		}
@@ -502,7 +561,7 @@ func runC15(c *mon.Ctx) {
 		if !ok {
 			return
 		}
-		kt, ref := c15kernTable(k, n)
+		kt, ref := c15kernTable(k, n, huge)
 		b := addTable(wb, "kern", kt)
 		k.Input(b)
 		k.DistinctBytes(kt)
@@ -545,7 +604,7 @@ func runC15(c *mon.Ctx) {
 			if k.Failed() {
 				return
 			}
-			if cnt++; cnt > 400 {
+			if cnt++; cnt > 400 && !huge || cnt > 3000 {
 				break
 			}
 		}
@@ -651,7 +710,7 @@ func runC15(c *mon.Ctx) {
 		k.Class(fmt.Sprintf("fixed-pitch=%v", isFixed))
 	})
 	req := []string{"select:exact-language", "select:non-matching-language,>=2-systems", "layout:gsub-effect", "layout:gpos-effect", "layout:no-rule-applies",
-		"kern:glyf", "kern:cff", "kern-subtable:accumulate", "kern-subtable:minimum", "kern-subtable:override", "kern-subtable:ignored", "fixed-pitch=true", "fixed-pitch=false",
+		"kern:glyf", "kern:cff", "kern-subtable:accumulate", "kern-subtable:minimum", "kern-subtable:override", "kern-subtable:ignored", "kern-subtable:>10920-pairs", "layout:gdef-marks", "layout:history-compared", "fixed-pitch=true", "fixed-pitch=false",
 		"features:all-off", "features:explicit", "features:nil-defaults"}
 	for s := 0; s < 32; s++ {
 		req = append(req, fmt.Sprintf("ligature-subset=%d", s))
